@@ -48,3 +48,7 @@ func QuietOffAfter(f func()) {
 	defer QuietOff()
 	f()
 }
+
+// Poke wakes the driver so that wait conditions are evaluated again (used by
+// timers and context callbacks, which are not tasks).
+func (s *Sim) Poke() { s.poke() }
